@@ -969,6 +969,49 @@ def private_faults(doc):
 
 # ------------------------------------------------------------------------------------------------
 
+def chain_branch_faults(doc):
+    """branch-type: in a parenthesised `(if c { e } else if c2 { e2 } ... else { en })` chain with three or more branches
+    (the generators only build such chains from int expressions, and use the value as an int), the body of one branch is
+    replaced by `{ true }`: that branch no longer has the type of the others, so the expression is ill-typed whichever
+    branch the checker takes as the reference."""
+    out = []
+    toks = doc.toks
+    for i in range(1, len(toks)):
+        if not (toks[i].kind == 'kw' and toks[i].text == 'if' and toks[i - 1].text == '('):
+            continue
+        branches, j, ok = [], i, True
+        while ok:
+            # condition: up to the first `{` outside parentheses
+            k, depth = j + 1, 0
+            while k < len(toks):
+                t = toks[k].text
+                if t == '(':
+                    depth += 1
+                elif t == ')':
+                    depth -= 1
+                elif t == '{' and depth == 0:
+                    break
+                k += 1
+            if k >= len(toks) or k not in doc.match:
+                ok = False
+                break
+            branches.append((k, doc.match[k]))
+            e = doc.match[k] + 1
+            if e < len(toks) and toks[e].text == 'else':
+                if e + 1 < len(toks) and toks[e + 1].text == 'if':
+                    j = e + 1
+                    continue
+                if e + 1 < len(toks) and toks[e + 1].text == '{' and (e + 1) in doc.match:
+                    branches.append((e + 1, doc.match[e + 1]))
+            break
+        if ok and len(branches) >= 3:
+            for bi, (a, b) in enumerate(branches):
+                for repl in ('{ true }', '{ "chain" }'):      # bool shares the run-time representation of int, Str does not
+                    out.append(_tok_mut(doc, 'branch-type:else-if-chain-branch-%d-of-%d' % (bi, len(branches)), a, b + 1, repl,
+                                        'branch %d of an int-valued else-if chain replaced by `%s`' % (bi, repl)))
+    return out
+
+
 def all_faults(text, profile='generated'):
     """Every single-fault mutant of one module text: list of dicts (kind, site, what, text, edit, original)."""
     doc = Doc(text)
@@ -980,7 +1023,7 @@ def all_faults(text, profile='generated'):
     non_impl = ('Nb.init(0)', 'Nb') if 'Nb' in doc.classes and not doc.classes['Nb']['supers'] else None
     return (operand_groups(doc) + operand_literals(doc) + arg_type_faults(doc) + arity_faults(doc) + typearg_faults(doc)
             + unbound_faults(doc) + unresolved_faults(doc) + private_faults(doc) + interface_faults(doc)
-            + bound_faults(doc, non_impl) + literal_faults(doc) + match_arm_faults(doc))
+            + bound_faults(doc, non_impl) + literal_faults(doc) + match_arm_faults(doc) + chain_branch_faults(doc))
 
 
 def family(kind):
